@@ -27,6 +27,52 @@ type RecordCase struct {
 	Watch  bool           `json:"watch,omitempty"` // corrupt under a loaded Project and reload it twice (watch mode) instead of loading afresh
 }
 
+// sharedDAG is the pickle of a doubling DAG: L0 = [], Li = [Li-1, Li-1] through the memo (8 bytes per
+// level). It is tiny and well formed; anything that walks it path by path (printing it, for instance)
+// takes 2^levels steps.
+func sharedDAG(levels int) []byte {
+	var b []byte
+	var rec func(k int)
+	rec = func(k int) {
+		b = append(b, ']', 0x94) // EMPTY_LIST MEMOIZE: the list of nesting k has memo id k
+		if k == levels {
+			return
+		}
+		b = append(b, '(')
+		rec(k + 1)
+		b = append(b, 'h', byte(k+1), 'e') // BINGET of the child, APPENDS
+	}
+	rec(0)
+	return b
+}
+
+// wrongShape returns a pickle that hands dawn's unpickler an object of one of its classes whose
+// arguments have the right count but the wrong shape, the offending one being a doubling DAG.
+func wrongShape(class string, before, after int) []byte {
+	b := []byte("\x8c\x04dawn\x8c")
+	b = append(b, byte(len(class)))
+	b = append(b, class...)
+	b = append(b, 0x93, '(')
+	for i := 0; i < before; i++ {
+		b = append(b, 'N')
+	}
+	b = append(b, sharedDAG(60)...)
+	for i := 0; i < after; i++ {
+		b = append(b, 'N')
+	}
+	return append(b, 't', 0x81, '.')
+}
+
+func init() {
+	for _, c := range []struct {
+		class         string
+		before, after int
+	}{{"Function", 2, 0}, {"Function", 2, 1}, {"Function", 0, 2}, {"FunctionCode", 0, 2}, {"FunctionCode", 1, 1}, {"FunctionCode", 2, 0}, {"Builtin", 0, 0}, {"Target", 0, 0}, {"Recursion", 0, 0}} {
+		foreignPickles = append(foreignPickles, wrongShape(c.class, c.before, c.after))
+	}
+	foreignPickles = append(foreignPickles, append(sharedDAG(60), '.'))
+}
+
 var foreignPickles = [][]byte{[]byte("N."), []byte("K\x01."), []byte("]\x94."), []byte("}\x94."), []byte("\x8c\x01a."), []byte(")."), []byte("]\x94(K\x01K\x02e."),
 	[]byte("}\x94(\x8c\x05names)\x8c\x04codeC\x00u."), []byte("\x8c\x04dawn\x8c\x08Function\x93NNN\x87\x81."), []byte("\x8c\x04dawn\x8c\x0cFunctionCode\x93)))\x87\x81.")}
 
@@ -157,6 +203,9 @@ func execRecord(c RecordCase) (v ev.Verdict) {
 		}
 		// in a child process: a panic on a runner goroutine would otherwise take the harness down
 		res = sim.ChildBuild(projsim.BuildReq{Label: m.Label(top)})
+	}
+	if res.ExitCode == -3 {
+		return ev.Failf("record-hang", "%s: the process loading and building the project has not finished after 120 s", where)
 	}
 	if res.ExitCode != 0 {
 		se := res.Stderr
